@@ -108,7 +108,8 @@ impl Scratch {
     }
     fn unsubst(&self, a: String) -> String {
         match &self.dir {
-            Some(d) => a.replace(d.to_str().unwrap_or("\u{0}"), "{S}"),
+            // "/SCRATCH" (not "{S}"): the placeholder must stay a plain scalar inside YAML / JSON / XML output
+            Some(d) => a.replace(d.to_str().unwrap_or("\u{0}"), "/SCRATCH"),
             None => a,
         }
     }
